@@ -411,6 +411,54 @@ fn configs(tier: Tier) -> Vec<Hg> {
     v
 }
 
+/// The call future is made under one runtime and driven by another (the first stays alive,
+/// nobody drives it): the attempts belong to the runtime that polls the call. Latency and
+/// parallel mode, every attempt answering at once.
+fn two_runtimes(rep: &mut Report) {
+    for parallel in [false, true] {
+        let wa = World::new(0, 10, trv_core::inner::Mode::Script, 1);
+        wa.inner.lock().unwrap().default_plan = trv_core::inner::Plan::now(Out::Ok);
+        let state = wa.inner.clone();
+        let b = HedgeLayer::builder().max_hedged_attempts(2);
+        let b = if parallel { b.no_delay() } else { b.delay(Duration::from_millis(20)) };
+        let mut svc = b.build().layer(GatedInner::new(wa.inner.clone()));
+        let made = std::panic::catch_unwind(std::panic::AssertUnwindSafe(|| {
+            drive_ready::<_, Req>(&mut svc, 4).expect("ready").ok();
+            tower::Service::call(&mut svc, Req::new(1, 0))
+        }));
+        let outcome = match made {
+            Err(_) => "call() panicked".to_string(),
+            Ok(fut) => {
+                let wb = World::new(0, 10, trv_core::inner::Mode::Script, 1);
+                let r = std::panic::catch_unwind(std::panic::AssertUnwindSafe(|| {
+                    wb.block_on(async {
+                        match tokio::time::timeout(Duration::from_secs(3600), fut).await {
+                            Ok(Ok(_)) => "ok".to_string(),
+                            Ok(Err(_)) => "error".to_string(),
+                            Err(_) => "never resolved".to_string(),
+                        }
+                    })
+                }));
+                r.unwrap_or_else(|_| "panicked".to_string())
+            }
+        };
+        let calls = state.lock().unwrap().calls.len();
+        rep.evaluations += 1;
+        rep.witness("call_made_under_one_runtime_driven_by_another", 1);
+        if outcome != "ok" || calls == 0 {
+            rep.violations.push(trv_core::evidence::Violation {
+                property: "C12".into(),
+                kind: "attempts_on_the_wrong_runtime".into(),
+                site: "hedge".into(),
+                config: format!("hedge max_hedged_attempts=2 {} call() under runtime A, future driven by runtime B", if parallel { "parallel" } else { "delay=20ms" }),
+                history: serde_json::json!(["call() under runtime A", "future awaited under runtime B"]),
+                detail: format!("every attempt would succeed at once; the call: {outcome}; inner calls {calls}"),
+                log: vec![],
+            });
+        }
+    }
+}
+
 fn main() {
     trv_core::startup();
     let cli = trv_core::parse_cli();
@@ -441,5 +489,6 @@ fn main() {
             svcx::validate_abstraction(&cfg, 7, &ex.fingerprints, ex.depth_completed, &mut rep);
         }
     }
+    two_runtimes(&mut rep);
     trv_core::finish(rep);
 }
